@@ -17,15 +17,16 @@ MODELS = {
     "ln_normal": (["LogNormalDistribution", "NormalDistribution"], [None, 0], "A"),
     "w_ln_indep": (["WeibullDistribution", "LogNormalDistribution"], [None, None], "A"),
     "w_vm": (["WeibullDistribution", "VonMisesDistribution"], [None, 0], "A"),
+    "w_vm_tilted": "custom",   # von Mises bands running diagonally: several regions with overlapping bounding boxes
     "chain3": (["WeibullDistribution", "LogNormalDistribution", "ExponentiatedWeibullDistribution"], [None, 0, 1], "A"),
     "star3": (["LogNormalDistribution", "WeibullDistribution", "NormalDistribution"], [None, 0, 0], "A"),
     "mixed3": (["ExponentiatedWeibullDistribution", "LogNormalDistribution", "WeibullDistribution"], [None, None, 1], "B"),
 }
 # generous explicit limits per model
-GENEROUS = {"w_ln": [(0, 9), (0, 12)], "ew_ew": [(0, 9), (0, 12)], "ln_normal": [(0, 9), (-3, 5)],
+GENEROUS = {"w_vm_tilted": [(0, 6), (-3.5, 16.5)], "w_ln": [(0, 9), (0, 12)], "ew_ew": [(0, 9), (0, 12)], "ln_normal": [(0, 9), (-3, 5)],
             "w_ln_indep": [(0, 9), (0, 8)], "w_vm": [(0, 9), (-3.5, 12.5)],
             "chain3": [(0, 8), (0, 10), (0, 12)], "star3": [(0, 8), (0, 10), (-3, 5)], "mixed3": [(0, 8), (0, 8), (0, 10)]}
-TIGHT = {"w_ln": [(0.5, 3), (1, 3)], "ew_ew": [(0.5, 3), (0.5, 3)], "ln_normal": [(0.5, 3), (0, 1.5)],
+TIGHT = {"w_vm_tilted": [(0.5, 3), (0, 9)], "w_ln": [(0.5, 3), (1, 3)], "ew_ew": [(0.5, 3), (0.5, 3)], "ln_normal": [(0.5, 3), (0, 1.5)],
          "w_ln_indep": [(0.5, 3), (0.8, 2.5)], "w_vm": [(0.5, 3), (-1, 1)],
          "chain3": [(0.5, 3), (1, 3), (0.5, 3)], "star3": [(0.5, 3), (1, 3), (0, 1.5)], "mixed3": [(0.5, 3), (0.8, 2.5), (1, 3)]}
 
@@ -97,10 +98,32 @@ def components(mask):
     return [idx[g] for g in sorted(groups.values(), key=lambda g: g[0])]
 
 
-def make_contour(mname, alpha, limits_kind, deltas_spec, seed):
+def _tilted_model():
+    from virocon import DependenceFunction, GlobalHierarchicalModel, VonMisesDistribution
+
+    def mu_lin(x, a=0.0, b=2.2):
+        return a + b * x
+
+    def kappa_const(x, a=3.0):
+        return a + 0.0 * x
+
+    descs = [{"distribution": zoo.make("WeibullDistribution", dict(alpha=2.5, beta=2.0, gamma=0.0))},
+             {"distribution": VonMisesDistribution(), "conditional_on": 0,
+              "parameters": {"kappa": DependenceFunction(kappa_const), "mu": DependenceFunction(mu_lin)}}]
+    return GlobalHierarchicalModel(descs), [None, 0]
+
+
+def model_for(mname):
+    if MODELS[mname] == "custom":
+        m, cond = _tilted_model()
+        return m, cond, 2
     fams, cond, assign = MODELS[mname]
     model, _ = zoo.build_model(fams, cond, assign)
-    n = len(fams)
+    return model, cond, len(fams)
+
+
+def make_contour(mname, alpha, limits_kind, deltas_spec, seed):
+    model, cond, n = model_for(mname)
     if limits_kind == "default":
         limits = None
     elif limits_kind == "generous":
